@@ -375,7 +375,7 @@ class Ctx:
                 outs += out[:n]
                 break
             outs += out[:n]
-            summ = self.sanitizer_summary(err) or ("timeout" if rc == -999 else "crash:rc=%d" % rc)
+            summ = self.sanitizer_summary(err) or ("timeout" if rc in (-999, -14) else "crash:rc=%d" % rc)
             outs.append("abort:" + summ)
             self.last_abort_stderr = err[-4000:]
             todo = todo[n + 1:]
